@@ -78,7 +78,6 @@ func TestMut7BootstrapMemberLeavePurgesItsActivations(t *testing.T) {
 	a.c.Start()
 	b.c.Start()
 	defer b.stop()
-	defer a.c.Stop()
 	m7cWaitMembers(t, a, b)
 
 	pid := b.c.Activate(kind, NewActivationConfig().WithID("1"))
@@ -93,7 +92,9 @@ func TestMut7BootstrapMemberLeavePurgesItsActivations(t *testing.T) {
 		t.Fatalf("B never learned about the activation")
 	}
 
-	// A leaves.
+	// A leaves: the whole node goes away (cluster actors first, so that its discovery cannot
+	// re-introduce it to B afterwards, then the remote).
+	a.c.Stop()
 	a.r.Stop().Wait()
 
 	gone := m7cEventually(7*time.Second, func() bool { return b.c.GetActiveByID(kind+"/1") == nil })
